@@ -94,6 +94,9 @@ pub struct SimState {
     pub implicit_cuts: u64,
     /// offsets (in accepted bytes) at which a fault fired, with the fault name
     pub fired_at: Vec<(usize, &'static str)>,
+    /// `write_vectored` gathers all slices in one call (what `File`, `Vec` and the std handles
+    /// do); otherwise it is the `io::Write` default, which offers the first non-empty slice only
+    pub gather: bool,
 }
 
 impl SimState {
@@ -121,6 +124,7 @@ impl SimState {
             fired_flush: 0,
             implicit_cuts: 0,
             fired_at: Vec::new(),
+            gather: false,
         }
     }
 
@@ -250,6 +254,27 @@ impl SimState {
         res.map_err(mk_err)
     }
 
+    /// A gathering vectored write: one call, one decision over the total, the accepted count runs
+    /// across the slices.
+    pub fn do_write_vectored(&mut self, bufs: &[io::IoSlice<'_>]) -> io::Result<usize> {
+        self.step();
+        let total: usize = bufs.iter().map(|b| b.len()).sum();
+        let res = self.decide(total);
+        if let Ok(n) = res {
+            let mut left = n;
+            for b in bufs {
+                let k = left.min(b.len());
+                self.accepted.extend_from_slice(&b[..k]);
+                left -= k;
+                if left == 0 {
+                    break;
+                }
+            }
+        }
+        self.log(InnerEvent::Write { offered: total, result: res });
+        res.map_err(mk_err)
+    }
+
     pub fn do_colored(&mut self, fg: u8, bg: u8, buf: &[u8]) -> io::Result<usize> {
         self.step();
         let res = self.decide(buf.len());
@@ -319,6 +344,15 @@ impl SimWriter {
 impl io::Write for SimWriter {
     fn write(&mut self, buf: &[u8]) -> io::Result<usize> {
         self.st().do_write(buf)
+    }
+    fn write_vectored(&mut self, bufs: &[io::IoSlice<'_>]) -> io::Result<usize> {
+        let mut st = self.st();
+        if st.gather {
+            st.do_write_vectored(bufs)
+        } else {
+            let buf = bufs.iter().find(|b| !b.is_empty()).map_or(&[][..], |b| &**b);
+            st.do_write(buf)
+        }
     }
     fn flush(&mut self) -> io::Result<()> {
         self.st().do_flush()
